@@ -1,10 +1,10 @@
-(* C10 for Go, from the IR to the whole file, for configurations WITHOUT uppercase_acronyms (partial: with
-   acronyms the names and printed types go through the textual replacement of go.rs:579, which is not followed
-   here; the layout theorem of Proofs/C10_GO.v covers whatever declarations come out of it). *)
+(* C10 for Go, from the IR to the whole file: names and printed types go through the textual acronym conversion
+   of go.rs:579 (Proofs/C10_GOAcr.v: for alphanumeric acronyms it only replaces letters / digits by letters / digits,
+   which no lexer tells apart), imports are collected in the printing state. *)
 From Coq Require Import List Bool Lia ZifyBool ZifyN NArith Permutation.
 From TS Require Import Model.Str Model.Outcome Model.Unicode Model.Types Model.Parse Model.Rename Model.TopsortAlgo Model.Topsort
                        Model.Lang.Common Model.Lang.Decl Model.Lang.Go.
-From TS Require Import Spec.C10Spec Proofs.BackCommon Proofs.C10Lex Proofs.C10_TSFile Proofs.C10Common Proofs.C10Monad Proofs.C10_GO.
+From TS Require Import Spec.C10Spec Proofs.BackCommon Proofs.C10Lex Proofs.C10_TSFile Proofs.C10Common Proofs.C10Monad Proofs.C10_GO Proofs.C10_GOAcr.
 Import ListNotations.
 Local Open Scope N_scope.
 Local Notation length := List.length (only parsing).
@@ -86,24 +86,33 @@ Proof.
 Qed.
 
 Definition c10_go_cfg_ok (cfg : go_config) : bool :=
-  forallb (fun kv => c10_raw_ok c10_lex_go (snd kv)) (go_type_mappings cfg) && c10_dotted_ok (go_version cfg) && c10_dotted_ok (go_package cfg).
+  forallb (fun kv => c10_raw_ok c10_lex_go (snd kv)) (go_type_mappings cfg) && c10_dotted_ok (go_version cfg) && c10_dotted_ok (go_package cfg) &&
+  forallb acr_ok (go_uppercase_acronyms cfg).
 
 Section GODecide.
 Variable uc : unicode.
 Hypothesis Huc : unicode_ok uc.
 Variable cfg : go_config.
 Hypothesis Hcfg : c10_go_cfg_ok cfg = true.
-Hypothesis Hacr : go_uppercase_acronyms cfg = [].
 
 Lemma go_Hmap : forallb (fun kv => c10_raw_ok c10_lex_go (snd kv)) (go_type_mappings cfg) = true.
+Proof. unfold c10_go_cfg_ok in Hcfg. rewrite !andb_true_iff in Hcfg. tauto. Qed.
+Lemma go_Hacr : forallb acr_ok (go_uppercase_acronyms cfg) = true.
 Proof. unfold c10_go_cfg_ok in Hcfg. rewrite !andb_true_iff in Hcfg. tauto. Qed.
 
 (* the imports collected while printing go unescaped between double quotes *)
 Definition go_inv (s : go_state) : Prop := forallb c10_instr_ok s = true.
 Notation gpost := (post go_inv).
 
-Lemma go_acr name : go_acronyms_to_uppercase uc cfg name = ret name.
-Proof. unfold go_acronyms_to_uppercase, go_convert_acronyms_to_uppercase. rewrite Hacr. reflexivity. Qed.
+(* the acronym conversion gives a text that lexes like the original *)
+Lemma go_acr_arel name : gpost (fun r => arel name r) (go_acronyms_to_uppercase uc cfg name).
+Proof.
+  intros s y s' H Hs. unfold go_acronyms_to_uppercase, go_lift in H.
+  destruct (go_convert_acronyms_to_uppercase uc (go_uppercase_acronyms cfg) name) as [r| |] eqn:E; try discriminate. injection H as <- <-.
+  split; [exact (convert_arel uc Huc _ _ _ go_Hacr E)|exact Hs].
+Qed.
+Lemma go_acr_tok name : c10_tok_ok name = true -> gpost (fun r => c10_tok_ok r = true) (go_acronyms_to_uppercase uc cfg name).
+Proof. intros H. eapply post_weaken; [|apply go_acr_arel]. intros r Hr. exact (tok_arel _ _ Hr H). Qed.
 
 Lemma go_add_import_post name : c10_instr_ok name = true -> gpost (fun _ => True) (go_add_import name).
 Proof.
@@ -144,12 +153,13 @@ Proof.
     eapply post_bind; [apply go_add_import_post; reflexivity|]. intros _ _. apply post_ret. reflexivity.
 Qed.
 
-(* without acronyms the textual conversion leaves the printed type as it is *)
+(* acronyms_to_uppercase on the printed type: the converted text lexes like the printed type *)
 Lemma go_acronyms_ty_post x : go_show_ok x = true -> gpost (fun y => go_show_ok y = true) (go_acronyms_ty uc cfg x).
 Proof.
-  intros Hx. unfold go_acronyms_ty. rewrite go_acr. eapply post_bind; [apply post_ret with (P := fun t => t = go_show x); reflexivity|].
-  intros text ->. apply post_ret. destruct (go_ty_acronyms uc cfg x) as [t'| |]; try exact Hx.
-  destruct (str_eqb (go_show t') (go_show x)) eqn:E; [|exact Hx]. apply str_eqb_eq in E. unfold go_show_ok in *. rewrite E. exact Hx.
+  intros Hx. unfold go_acronyms_ty. eapply post_bind; [apply go_acr_arel|]. intros text Hrel. apply post_ret.
+  assert (Ht : c10_balanced c10_lex_go text = true) by (rewrite (balanced_arel _ _ _ Hrel); exact Hx).
+  destruct (go_ty_acronyms uc cfg x) as [t'| |]; try exact Ht.
+  destruct (str_eqb (go_show t') text) eqn:E; [|exact Ht]. apply str_eqb_eq in E. unfold go_show_ok. rewrite E. exact Ht.
 Qed.
 
 Lemma go_member_post generics f : c10_field_ok CGO f = true -> gpost (fun m => c10_go_member_ok m = true) (go_member_of uc cfg generics f).
@@ -161,9 +171,9 @@ Proof.
     + apply post_ret. exact (type_override_raw CGO f o Hf0 Eo).
     + eapply post_weaken; [|exact (go_texp_ok generics (fty f) Hrt)]. intros a. apply go_ty_show_ok.
   - intros ty Pty. eapply post_bind; [exact (go_acronyms_ty_post ty Pty)|]. intros gty Pg.
-    unfold go_format_field_name. rewrite go_acr. eapply post_bind; [apply post_ret with (P := fun n => n = to_pascal_case (original (fid f))); reflexivity|].
-    intros fname ->. apply post_ret. unfold c10_go_member_ok. cbn [gm_docs gm_name gm_type gm_key].
-    rewrite (docs_line_ok _ Hdocs), (to_pascal_tok _ (ident_tok _ Horig)), Pg. cbn [andb].
+    unfold go_format_field_name. eapply post_bind; [exact (go_acr_tok _ (to_pascal_tok _ (ident_tok _ Horig)))|].
+    intros fname Pf. apply post_ret. unfold c10_go_member_ok. cbn [gm_docs gm_name gm_type gm_key].
+    rewrite (docs_line_ok _ Hdocs), Pf, Pg. cbn [andb].
     destruct (renamed (fid f)) as [|c r] eqn:E; [discriminate|]. unfold c10_key_ok in Hren. exact (key_notick _ Hren).
 Qed.
 
@@ -172,14 +182,11 @@ Lemma go_struct_post rs :
   forallb (c10_field_ok CGO) (sfields rs) = true -> forallb c10_line_ok (scomments rs) = true ->
   gpost (fun d => c10_go_decl_ok d = true) (go_struct_decl_of uc cfg rs).
 Proof.
-  intros Hn Hg Hf Hd. unfold go_struct_decl_of. rewrite go_acr.
-  eapply post_bind; [apply post_ret with (P := fun n => n = renamed (sid rs)); reflexivity|]. intros name ->.
+  intros Hn Hg Hf Hd. unfold go_struct_decl_of.
+  eapply post_bind; [exact (go_acr_tok _ Hn)|]. intros name Pn.
   eapply post_bind; [exact (post_mmapM go_inv _ _ _ (go_member_post (sgenerics rs)) _ (forallb_Forall _ _ Hf))|].
-  intros ms Pms. apply post_ret. cbn [c10_go_decl_ok]. rewrite Hd, Hn, (generics_tok _ Hg), (Forall_forallb _ _ Pms). reflexivity.
+  intros ms Pms. apply post_ret. cbn [c10_go_decl_ok]. rewrite Hd, Pn, (generics_tok _ Hg), (Forall_forallb _ _ Pms). reflexivity.
 Qed.
-
-Lemma ident_app_tok a b : c10_tok_ok a = true -> c10_tok_ok b = true -> c10_tok_ok (a ++ b) = true.
-Proof. apply tok_lit_app. Qed.
 
 Lemma go_decl_post custom it : c10_item_ok CGO it = true -> gpost (fun ds => forallb c10_go_decl_ok ds = true) (go_decl_of uc cfg custom it).
 Proof.
@@ -199,11 +206,12 @@ Proof.
         intros v Hv0. destruct v as [vsh | t vsh | fs vsh]; try (apply post_ret; reflexivity).
         unfold c10_variant_ok in Hv0. cbn [variant_shared] in Hv0. rewrite !andb_true_iff in Hv0. destruct Hv0 as [[Hvid _] Hfs].
         unfold c10_member_id_ok in Hvid. apply andb_true_iff in Hvid as [Hvo _].
-        unfold go_make_anonymous_struct_name. rewrite go_acr.
-        eapply post_bind; [apply post_ret with (P := fun n => n = original (eid (enum_shared e)) ++ original (vid vsh) ++ lit "Inner"); reflexivity|].
-        intros sn ->. eapply post_bind.
+        unfold go_make_anonymous_struct_name.
+        eapply post_bind with (P := fun sn => c10_tok_ok sn = true).
+        { apply go_acr_tok. rewrite !tok_ok_app, (ident_tok _ Horig), (ident_tok _ Hvo). reflexivity. }
+        intros sn Psn. eapply post_bind.
         + apply go_struct_post; cbn [anon_struct sid sgenerics sfields scomments renamed].
-          * rewrite !tok_ok_app, (ident_tok _ Horig), (ident_tok _ Hvo). reflexivity.
+          * exact Psn.
           * apply anon_struct_generics_ok, Hg.
           * exact Hfs.
           * cbn [forallb]. rewrite andb_true_r. apply docsafe_line.
@@ -211,36 +219,36 @@ Proof.
         + intros d Pd. apply post_ret. cbn [forallb]. rewrite Pd. reflexivity.
       - intros dss Pdss. apply post_ret. induction Pdss; cbn [List.concat]; [reflexivity|]. rewrite forallb_app, H, IHPdss. reflexivity. }
     intros anon Panon. destruct e as [sh | tag_key content_key sh]; cbn [enum_shared] in *.
-    + rewrite go_acr. eapply post_bind; [apply post_ret with (P := fun n => n = original (eid sh)); reflexivity|]. intros en ->.
+    + eapply post_bind; [exact (go_acr_tok _ (ident_tok _ Horig))|]. intros en Pen.
       eapply post_bind with (P := Forall (fun v : list str * str * str => (let '(vdocs, const, _) := v in forallb c10_line_ok vdocs && c10_tok_ok const) = true)).
       * eapply (post_mmapM go_inv _ (fun v => c10_variant_ok CGO v = true)); [|exact (forallb_Forall _ _ Hv)].
         intros v Hv0. unfold go_unit_variant_of. destruct v as [vsh | t vsh | fs vsh]; try apply post_mpanic.
         unfold c10_variant_ok in Hv0. cbn [variant_shared] in Hv0. rewrite !andb_true_iff in Hv0. destruct Hv0 as [[Hvid Hvd] _].
         unfold c10_member_id_ok in Hvid. apply andb_true_iff in Hvid as [Hvo _].
-        rewrite !go_acr. eapply post_bind; [apply post_ret with (P := fun n => n = original (eid sh)); reflexivity|]. intros en ->.
-        eapply post_bind; [apply post_ret with (P := fun n => n = original (vid vsh)); reflexivity|]. intros vn ->.
-        apply post_ret. rewrite (docs_line_ok _ Hvd), tok_ok_app, (ident_tok _ Horig), (ident_tok _ Hvo). reflexivity.
+        eapply post_bind; [exact (go_acr_tok _ (ident_tok _ Horig))|]. intros en2 Pen2.
+        eapply post_bind; [exact (go_acr_tok _ (ident_tok _ Hvo))|]. intros vn Pvn.
+        apply post_ret. rewrite (docs_line_ok _ Hvd), tok_ok_app, Pen2, Pvn. reflexivity.
       * intros vs Pvs. apply post_ret. rewrite forallb_app, Panon. cbn [forallb c10_go_decl_ok].
-        rewrite (docs_line_ok _ Hd), (ident_tok _ Horig), (Forall_forallb _ _ Pvs). reflexivity.
+        rewrite (docs_line_ok _ Hd), Pen, (Forall_forallb _ _ Pvs). reflexivity.
     + apply andb_true_iff in Htc as [Htag Hcon].
-      rewrite go_acr. eapply post_bind; [apply post_ret with (P := fun n => n = original (eid sh)); reflexivity|]. intros struct_name ->.
+      eapply post_bind; [exact (go_acr_tok _ (ident_tok _ Horig))|]. intros struct_name Psn.
       eapply post_bind with (P := fun cf => c10_tok_ok cf = true).
       { intros s y s' H Hs. unfold go_lift in H. destruct (to_camel_case content_key) as [r| |] eqn:Ec; try discriminate.
         injection H as <- <-. split; [exact (to_camel_tok _ _ (key_tok _ Hcon) Ec)|exact Hs]. }
-      intros content_field Pcf. unfold go_format_field_name. rewrite go_acr.
-      eapply post_bind; [apply post_ret with (P := fun n => n = to_pascal_case tag_key); reflexivity|]. intros tag_field ->.
+      intros content_field Pcf. unfold go_format_field_name.
+      eapply post_bind; [exact (go_acr_tok _ (to_pascal_tok _ (key_tok _ Htag)))|]. intros tag_field Ptf.
       eapply post_bind with (P := fun sn => c10_tok_ok sn = true).
       { destruct (original (eid sh)) as [|c0 r0] eqn:Eo; [apply post_mpanic|]. destruct (c0 <? 128) eqn:Ea; [|apply post_mpanic].
         apply post_ret. unfold str_to_lowercase. cbn [flat_map]. rewrite app_nil_r, (ok_to_lower uc Huc c0 ltac:(lia)).
         pose proof (ident_tok _ Horig) as Ht. unfold c10_tok_ok in *. cbn [forallb] in *. rewrite special_alower.
         apply andb_true_iff in Ht as [Ht _]. rewrite Ht. reflexivity. }
-      intros short Pshort. rewrite go_acr. eapply post_bind; [apply post_ret with (P := fun n => n = tag_key); reflexivity|]. intros tag_acr ->.
+      intros short Pshort. eapply post_bind; [exact (go_acr_tok _ (key_tok _ Htag))|]. intros tag_acr Pta.
       eapply post_bind with (P := Forall (fun gv => c10_go_variant_ok gv = true)).
       * eapply (post_mmapM go_inv _ (fun v => c10_variant_ok CGO v = true)); [|exact (forallb_Forall _ _ Hv)].
-        intros v Hv0. unfold go_variant_of. rewrite !go_acr.
+        intros v Hv0. unfold go_variant_of. cbv zeta.
         unfold c10_variant_ok in Hv0. rewrite !andb_true_iff in Hv0. destruct Hv0 as [[Hvid Hvd] Hp].
         unfold c10_member_id_ok in Hvid. apply andb_true_iff in Hvid as [Hvo _].
-        eapply post_bind; [apply post_ret with (P := fun n => n = original (vid (variant_shared v))); reflexivity|]. intros vname ->.
+        eapply post_bind; [exact (go_acr_tok _ (ident_tok _ Hvo))|]. intros vname Pvn.
         eapply post_bind with (P := fun vt => match vt with
                                                | Some (inl x) => go_show_ok x = true
                                                | Some (inr s) => c10_tok_ok s = true
@@ -249,29 +257,28 @@ Proof.
         { destruct v as [vsh | t vsh | fs vsh]; cbn [variant_shared] in *.
           - apply post_ret. exact I.
           - eapply post_bind; [exact (go_texp_ok [] t Hp)|]. intros x Px. apply post_ret. apply go_ty_show_ok, Px.
-          - unfold go_make_anonymous_struct_name. rewrite go_acr.
-            eapply post_bind; [apply post_ret with (P := fun n => n = original (eid sh) ++ original (vid vsh) ++ lit "Inner"); reflexivity|].
-            intros sname ->. apply post_ret. rewrite !tok_ok_app, (ident_tok _ Horig), (ident_tok _ Hvo). reflexivity. }
-        intros vt Pvt. eapply post_bind; [apply post_ret with (P := fun n => n = to_pascal_case tag_key); reflexivity|]. intros tag_part ->.
+          - unfold go_make_anonymous_struct_name.
+            eapply post_bind with (P := fun sn => c10_tok_ok sn = true).
+            { apply go_acr_tok. rewrite !tok_ok_app, (ident_tok _ Horig), Pvn. reflexivity. }
+            intros sname Psname. apply post_ret. exact Psname. }
+        intros vt Pvt. eapply post_bind; [exact (go_acr_tok _ (to_pascal_tok _ (key_tok _ Htag)))|]. intros tag_part Ptp.
         eapply post_bind with (P := fun c => match c with GCNone => True | GCType ty _ => go_show_ok ty = true | GCInner r => c10_tok_ok r = true end).
         { destruct vt as [[x|s]|].
           - eapply post_bind; [exact (go_acronyms_ty_post x Pvt)|]. intros fvt Pf. apply post_ret. exact Pf.
-          - rewrite go_acr. eapply post_bind; [apply post_ret with (P := fun n => n = s); reflexivity|]. intros fvt ->. apply post_ret. exact Pvt.
+          - eapply post_bind; [exact (go_acr_tok _ Pvt)|]. intros fvt Pf. apply post_ret. exact Pf.
           - apply post_ret. exact I. }
         intros content Pc. apply post_ret. unfold c10_go_variant_ok. cbn [gv_docs gv_const gv_method gv_content].
-        rewrite (docs_line_ok _ Hvd), (ident_tok _ Hvo), !tok_ok_app, (ident_tok _ Horig), (to_pascal_tok _ (key_tok _ Htag)), (ident_tok _ Hvo).
-        cbn [andb]. destruct content; auto.
+        rewrite (docs_line_ok _ Hvd), Pvn, !tok_ok_app, Psn, Ptp, Pvn. cbn [andb]. destruct content; auto.
       * intros vs Pvs. apply post_ret. rewrite forallb_app, Panon. cbn [forallb c10_go_decl_ok]. rewrite andb_true_r.
         unfold c10_go_tagged_ok. cbn [gt_docs gt_name gt_key_type gt_tag_key gt_content_key gt_tag_field gt_content_field gt_short gt_variants].
-        rewrite (docs_line_ok _ Hd), (ident_tok _ Horig), !tok_ok_app, (ident_tok _ Horig), !(to_pascal_tok _ (key_tok _ Htag)), Pcf, Pshort,
-          (Forall_forallb _ _ Pvs). cbn [andb].
+        rewrite (docs_line_ok _ Hd), Psn, !tok_ok_app, Psn, (to_pascal_tok _ Pta), Ptf, Pcf, Pshort, (Forall_forallb _ _ Pvs). cbn [andb].
         destruct tag_key as [|t0 tr]; [discriminate|]. destruct content_key as [|c0 cr]; [discriminate|].
         unfold c10_key_ok in Htag, Hcon. rewrite (key_notick _ Htag), (key_notick _ Hcon). reflexivity.
   - cbn [c10_item_ok] in Hit. rewrite !andb_true_iff in Hit. destruct Hit as [[[[Hid Hg] Ht] Hd] _].
     unfold c10_type_id_ok in Hid. apply andb_true_iff in Hid as [Horig _].
-    rewrite go_acr. eapply post_bind; [apply post_ret with (P := fun n => n = original (aid a)); reflexivity|]. intros name ->.
+    eapply post_bind; [exact (go_acr_tok _ (ident_tok _ Horig))|]. intros name Pn.
     eapply post_bind; [exact (go_texp_ok [] (atype a) Ht)|]. intros ty Pty. apply post_ret.
-    cbn [forallb c10_go_decl_ok]. rewrite (docs_line_ok _ Hd), (ident_tok _ Horig), (go_ty_show_ok _ Pty). reflexivity.
+    cbn [forallb c10_go_decl_ok]. rewrite (docs_line_ok _ Hd), Pn, (go_ty_show_ok _ Pty). reflexivity.
   - cbn [c10_item_ok] in Hit. rewrite !andb_true_iff in Hit. destruct Hit as [Hid Ht].
     unfold c10_type_id_ok in Hid. apply andb_true_iff in Hid as [_ Hren].
     eapply post_bind; [exact (go_texp_ok [] (ctype c) Ht)|]. intros ty Pty. apply post_ret.
@@ -288,14 +295,13 @@ Proof.
     intros st. set (F := flat_map _ _) in *. walk. reflexivity.
 Qed.
 
-(* partial: uppercase_acronyms = [] (Section hypothesis Hacr) *)
 Theorem go_generate_balanced pd text : dom_C10 CGO pd = true -> go_generate uc cfg pd = Ok text -> c10_balanced c10_lex_go text = true.
 Proof.
   intros Hdom H. unfold go_generate in H. apply bind_ok in H as (items & Et & H).
   assert (Hitems : Forall (fun it => c10_item_ok CGO it = true) items).
   { apply forallb_Forall in Hdom. fold (items_of pd) in Hdom.
     eapply Permutation_Forall; [apply Permutation_sym, (topsort_ok_perm _ _ Et)|exact Hdom]. }
-  pose proof Hcfg as Hc. unfold c10_go_cfg_ok in Hc. rewrite !andb_true_iff in Hc. destruct Hc as [[_ Hver] Hpack].
+  pose proof Hcfg as Hc. unfold c10_go_cfg_ok in Hc. rewrite !andb_true_iff in Hc. destruct Hc as [[[_ Hver] Hpack] _].
   set (custom := go_types_mapping_to_struct items) in *.
   match type of H with match ?run _ with _ => _ end = _ => destruct (run []) as [[out sfin]| |] eqn:Er; try discriminate end.
   injection H as <-.
